@@ -9,7 +9,9 @@ package hc01
 // disk) and inline descriptor data.
 
 import (
+	"archive/tar"
 	"bytes"
+	"compress/gzip"
 	"context"
 	"crypto/sha256"
 	"crypto/sha512"
@@ -24,11 +26,13 @@ import (
 	"strconv"
 	"strings"
 	"testing"
+	"time"
 
 	"github.com/regclient/regclient/internal/verif/ev"
 	"github.com/regclient/regclient/internal/verif/qsched"
 	"github.com/regclient/regclient/internal/verif/rcenv"
 	"github.com/regclient/regclient/types/descriptor"
+	"github.com/regclient/regclient/types/errs"
 	"github.com/regclient/regclient/types/ref"
 	"github.com/opencontainers/go-digest"
 )
@@ -79,6 +83,35 @@ func dig(algo string, b []byte) digest.Digest {
 	return digest.Digest("sha256:" + hex.EncodeToString(s[:]))
 }
 
+// contentBytes resolves the symbolic contents of the structured-reader family ("@tar", "@targz",
+// "@config"); every other content is literal.
+var symContent = func() map[string][]byte {
+	var tb bytes.Buffer
+	tw := tar.NewWriter(&tb)
+	tw.WriteHeader(&tar.Header{Name: "f.txt", Mode: 0o644, Size: 5, ModTime: time.Unix(0, 0)})
+	tw.Write([]byte("hello"))
+	tw.Close()
+	var gb bytes.Buffer
+	gw := gzip.NewWriter(&gb)
+	gw.Write(tb.Bytes())
+	gw.Close()
+	return map[string][]byte{
+		"@tar":    tb.Bytes(),
+		// the same archive followed by 12 KiB of zero padding, more than any read-ahead buffer holds:
+		// bytes the tar walker itself never asks for, but which belong to the blob
+		"@tarpad": append(append([]byte{}, tb.Bytes()...), make([]byte, 12288)...),
+		"@targz":  gb.Bytes(),
+		"@config": []byte(`{"architecture":"amd64","os":"linux","config":{"Env":["A=b"]},"rootfs":{"type":"layers","diff_ids":[]}}`),
+	}
+}()
+
+func contentBytes(c string) []byte {
+	if b, ok := symContent[c]; ok {
+		return append([]byte{}, b...)
+	}
+	return []byte(c)
+}
+
 func xform(x []byte, t string) []byte {
 	y := append([]byte{}, x...)
 	switch {
@@ -87,8 +120,10 @@ func xform(x []byte, t string) []byte {
 		k, _ := strconv.Atoi(t[5:])
 		if y[k] == 'a' {
 			y[k] = 'b'
-		} else {
+		} else if y[k] == 'b' {
 			y[k] = 'a'
+		} else {
+			y[k] ^= 0x01
 		}
 	case strings.HasPrefix(t, "trunc@"):
 		k, _ := strconv.Atoi(t[6:])
@@ -267,7 +302,7 @@ func readAll(rdr io.Reader, sizes []int) ([]byte, error) {
 
 func run(t *testing.T, c Case, scratch string) outcome {
 	var o outcome
-	x := []byte(c.Content)
+	x := contentBytes(c.Content)
 	d := descriptor.Descriptor{Digest: dig(c.Algo, x)}
 	if c.Sized {
 		d.Size = int64(len(x))
@@ -313,6 +348,48 @@ func run(t *testing.T, c Case, scratch string) outcome {
 	}
 	defer rdr.Close()
 	switch {
+	case c.Mode == "tar-rawbody" || c.Mode == "tar-missing-file" || c.Mode == "tar-walk":
+		tr, err := rdr.ToTarReader()
+		if err != nil {
+			o.err = err
+			return o
+		}
+		switch c.Mode {
+		case "tar-rawbody":
+			o.acc, o.err = tr.RawBody()
+			o.clean = o.err == nil
+		case "tar-missing-file":
+			_, _, err := tr.ReadFile("no/such/file")
+			o.err = err
+			o.clean = errors.Is(err, errs.ErrFileNotFound)
+		case "tar-walk":
+			// the way regctl walks a layer: every entry, then the verdict of the search for a name
+			// that is not there
+			t, err := tr.GetTarReader()
+			if err == nil {
+				for {
+					if _, err = t.Next(); err != nil {
+						break
+					}
+				}
+			}
+			if err != io.EOF {
+				o.err = err
+				return o
+			}
+			_, _, err = tr.ReadFile("no/such/file")
+			o.err = err
+			o.clean = errors.Is(err, errs.ErrFileNotFound)
+		}
+		return o
+	case c.Mode == "ociconfig":
+		oc, err := rdr.ToOCIConfig()
+		o.err = err
+		o.clean = err == nil
+		if err == nil {
+			o.acc, _ = oc.RawBody()
+		}
+		return o
 	case c.Mode == "rawbody":
 		o.acc, o.err = rdr.RawBody()
 		o.clean = o.err == nil
@@ -338,7 +415,20 @@ func run(t *testing.T, c Case, scratch string) outcome {
 }
 
 func judge(c Case, o outcome) (string, string) {
-	x := []byte(c.Content)
+	x := contentBytes(c.Content)
+	if strings.HasPrefix(c.Mode, "tar-") || c.Mode == "ociconfig" {
+		// structured readers: "clean" means the reader reported that it consumed and accepted the
+		// whole blob (RawBody / ToOCIConfig returned nil; ReadFile of an absent name answered "not
+		// found", which it may only say after reading to the end)
+		y := xform(x, c.Xform)
+		if o.clean && !bytes.Equal(y, x) {
+			return "clean-read-of-wrong-content structured-reader", fmt.Sprintf("mode %s reported the blob as read to the end and accepted, but the stored/served bytes differ from the content the descriptor names (%s)", c.Mode, c.Xform)
+		}
+		if !o.clean && bytes.Equal(y, x) && c.Stated == "" {
+			return "intact-stream-unreadable structured-reader", fmt.Sprintf("mode %s failed on intact content: %v", c.Mode, o.err)
+		}
+		return "", ""
+	}
 	if o.clean && c.Stated != "" {
 		// the descriptor states a size (> 0, so it is a statement and not "unknown") that differs from
 		// the number of bytes delivered
@@ -526,10 +616,55 @@ func enumerate(thorough bool, emit func(Case)) {
 	}
 }
 
+// structured: the readers layered on the blob reader (tar walker, config parser) on real tar /
+// gzip / JSON content, damaged at every position class
+func enumerateStructured(emit func(Case)) {
+	for _, cn := range []string{"@tar", "@tarpad", "@targz", "@config"} {
+		n := len(symContent[cn])
+		var offs []int
+		for _, k := range []int{0, 1, 100, 156, 257, 511, 512, 513, 516, 517, 1023, 1024, 1025, 1535, 1536, 2047, 2048, 6144, 6145, n / 2, n - 9, n - 8, n - 4, n - 1} {
+			if k >= 0 && k < n {
+				offs = append(offs, k)
+			}
+		}
+		var xfs []string
+		seen := map[int]bool{}
+		for _, k := range offs {
+			if !seen[k] {
+				seen[k] = true
+				xfs = append(xfs, fmt.Sprintf("flip@%d", k))
+			}
+		}
+		xfs = append([]string{"id"}, xfs...)
+		xfs = append(xfs, fmt.Sprintf("trunc@%d", n-1), fmt.Sprintf("trunc@%d", n/2), "extra1", "extra2")
+		modes := []string{"tar-rawbody", "tar-missing-file", "tar-walk"}
+		if cn == "@config" {
+			modes = []string{"ociconfig"}
+		}
+		for _, algo := range []string{"sha256", "sha512"} {
+			for _, sized := range []bool{true, false} {
+				for _, store := range []string{"reg", "dir"} {
+					for _, xf := range xfs {
+						for _, m := range modes {
+							cls := []string{"right"}
+							if store == "reg" {
+								cls = []string{"right", "absent"}
+							}
+							for _, cl := range cls {
+								emit(Case{Content: cn, Algo: algo, Sized: sized, Store: store, Xform: xf, CL: cl, Mode: m})
+							}
+						}
+					}
+				}
+			}
+		}
+	}
+}
+
 func TestVerifC01(t *testing.T) {
 	rec := ev.New()
 	defer rec.Flush(t)
-	rec.Rule("case = content (all strings over {a,b} of length 0..4, thorough 0..6, plus one 70-byte string) x digest algorithm x size stated/unknown/stated wrongly (±1, half, double; digest right) x store {registry (scripted transport), OCI layout file, inline data} x served-stream transformation {identity, flip at every offset, truncation at every offset, 1-2 extra bytes, substitution of equal / greater / smaller length} x Content-Length {right, absent, +1, -1, of the intended content} x every composition of read sizes from {1,2,3} (plus large reads and zero-length reads) x EOF with / after the last data x mode {read, RawBody, rewind after k bytes then read} x connection drops at every offset (1, and 2 nearby) x range answer {correct, shifted -1/+1, other bytes, 200 full body, 206 without Content-Range, 416, 500 then correct}. " +
+	rec.Rule("case = content (all strings over {a,b} of length 0..4, thorough 0..6, plus one 70-byte string) x digest algorithm x size stated/unknown/stated wrongly (±1, half, double; digest right) x store {registry (scripted transport), OCI layout file, inline data} x served-stream transformation {identity, flip at every offset, truncation at every offset, 1-2 extra bytes, substitution of equal / greater / smaller length} x Content-Length {right, absent, +1, -1, of the intended content} x every composition of read sizes from {1,2,3} (plus large reads and zero-length reads) x EOF with / after the last data x mode {read, RawBody, rewind after k bytes then read}; plus the structured readers on real content (a tar, a gzip-compressed tar, a config JSON; flips at 21 positions incl. header, data, padding and trailer, truncations, extra bytes): BTarReader.RawBody, ReadFile of an absent name, a full walk followed by that search, ToOCIConfig x connection drops at every offset (1, and 2 nearby) x range answer {correct, shifted -1/+1, other bytes, 200 full body, 206 without Content-Range, 416, 500 then correct}. " +
 		"Oracle: a read that ends in io.EOF delivered exactly the intended content (the only string of the alphabet with that digest); an intact stream (with correct resumes) must be readable. distinct_nontrivial = cases whose served stream differs from the intended content or involves a drop")
 	rec.Assume("the scripted transport hands out bodies the way net/http does (never more than Content-Length bytes; early close = unexpected EOF)")
 	rec.Assume("two distinct strings of the enumerated alphabet never share a digest")
@@ -582,7 +717,11 @@ func TestVerifC01(t *testing.T) {
 	}
 	i := 0
 	var sample int
-	enumerate(rec.Thorough(), func(c Case) {
+	both := func(emit func(Case)) {
+		enumerateStructured(emit)
+		enumerate(rec.Thorough(), emit)
+	}
+	both(func(c Case) {
 		i++
 		if !rec.Mine(i / 64) { // blocks of 64 consecutive cases per shard
 			return
